@@ -1360,7 +1360,12 @@ struct Prog {
                 VCHECK(ctx, !r.search_csrc_id(absent), "C04:RTP:search_csrc_id-absent" + tail, absent << " | " << ctxt);
                 const bool xbit = m.get("extension_bit", "0") != "0";
                 if (m.f.count("extension_data")) {
-                    if (xbit) for (uint32_t x : m.ext) VCHECK(ctx, r.search_extension_data(x), "C04:RTP:search_extension_data" + tail, x << " | " << ctxt);
+                    if (xbit) {
+                        // (a list filled to capacity holds 65535 words: probe its two ends rather than all of it)
+                        size_t n = m.ext.size(), stepk = n > 512 ? n / 256 : 1;
+                        for (size_t k = 0; k < n; k += (k < 128 || k + 128 >= n) ? 1 : stepk)
+                            VCHECK(ctx, r.search_extension_data(m.ext[k]), "C04:RTP:search_extension_data" + tail, m.ext[k] << " | " << ctxt);
+                    }
                     absent = 0xa5a5a5a5u;
                     while (std::find(m.ext.begin(), m.ext.end(), absent) != m.ext.end()) ++absent;
                     VCHECK(ctx, !r.search_extension_data(absent), "C04:RTP:search_extension_data-absent" + tail, absent << " | " << ctxt);
@@ -1584,12 +1589,35 @@ struct Prog {
             uint32_t v = (uint32_t)st.edgy(32);
             if (op == 2 && !m.csrc.empty() && st.chance(75)) v = m.csrc[st.pick(m.csrc.size())];
             if (op == 3 && !m.ext.empty() && st.chance(75)) v = m.ext[st.pick(m.ext.size())];
-            if (op == 0) {
+            if (op <= 1 && st.chance(op == 0 ? 6 : 2)) {   // (drawn after the step's other choices)
+                // fill the list up to what its count field can say (15 CSRC ids / 65535 extension words) and try one or two
+                // more: an add that does not fit must be refused with the documented std::logic_error and change nothing
+                const bool ext = op == 1;
+                std::vector<uint32_t>& lst = ext ? m.ext : m.csrc;
+                const size_t cap = ext ? 65535 : 15;
+                const size_t target = cap - 1 + ((v >> 9) & 3);
+                size_t added = 0, refused = 0;
+                for (size_t k = lst.size(); k < target; ++k) {
+                    bool threw = false;
+                    try { if (ext) r.add_extension_data((uint32_t)k); else r.add_csrc_id((uint32_t)k); }
+                    catch (const std::logic_error&) { threw = true; }
+                    const bool fits = lst.size() < cap;
+                    if (fits != !threw) {
+                        text.push_back(L + std::string("RTP bulk ") + (ext ? "add_extension_data" : "add_csrc_id") + ": element #" + std::to_string(lst.size() + 1) + (threw ? " refused" : " accepted"));
+                        VFAIL(ctx, std::string("C04:RTP:") + (ext ? "extension-data" : "csrc-ids") + (threw ? ":refused-below-capacity" : ":accepted-beyond-capacity"), program());
+                    }
+                    if (!threw) { lst.push_back((uint32_t)k); ++added; } else ++refused;
+                }
+                if (ext && added) m.f["extension_bit"] = "1";
+                text.push_back(L + std::string("RTP::") + (ext ? "add_extension_data" : "add_csrc_id") + " x" + std::to_string(added) + " up to capacity (" + std::to_string(refused) + " refused)");
+                ctx.label(ext ? "rtp-extension-at-capacity" : "rtp-csrc-at-capacity");
+            } else if (op == 0) {
                 if (m.csrc.size() >= 15) { ctx.excluded("rtp-16th-csrc"); return; }  // 4-bit CSRC count
                 r.add_csrc_id(v);
                 m.csrc.push_back(v);
                 text.push_back(L + "RTP::add_csrc_id(" + std::to_string(v) + ")");
             } else if (op == 1) {
+                if (m.ext.size() >= 65535) { ctx.excluded("rtp-65536th-extension-word"); return; }  // 16-bit extension length
                 r.add_extension_data(v);
                 m.ext.push_back(v);
                 m.f["extension_bit"] = "1";
@@ -2113,6 +2141,9 @@ void reparse_and_compare(Prog& P, Ctx& ctx) {
     for (const LM& m : P.model) for (const MOpt& o : m.opts) if (o.spoofed()) { ctx.excluded("spoofed-length-field-not-reparsed"); return; }
     if (!P.entry) { ctx.excluded("no-entry-point"); return; }
     PDU& top = *P.top;
+    // a packet beyond what the 16-bit length fields of its carriers (IPv4 total length, UDP length, IPv6 payload length) can
+    // say cannot be parsed back from the wire (e.g. an RTP header filled to its 65535 extension words under UDP/IP)
+    if (top.size() > 65535) { ctx.excluded("larger-than-65535-octets-not-reparsed"); return; }
     if (IP* root = dynamic_cast<IP*>(&top)) if (root->src_addr() == IPv4Address((uint32_t)0)) { ctx.excluded("outermost-ip-src-0.0.0.0"); return; }
     std::string prog = P.program();
     PacketView vp = view_packet(top);  // before serialising: serialisation writes derived fields back
